@@ -61,6 +61,28 @@ def _fd_content(fd):
         return "c?", 0
 
 
+# How much a buffered write proxy may hold before write() itself flushes (None: unbounded, data reaches the
+# disk at flush()/close() only).  A real file object flushes inside write() once its buffer (8 KiB) is full, so
+# an I/O error or a power cut can strike INSIDE write(), before the writer's own close()/discard logic runs;
+# scenarios that want both shapes of a write as crash points alternate between None and a small limit.
+BUFFER_LIMIT = None
+
+
+class buffer_limit:
+    def __init__(self, limit):
+        self.limit = limit
+
+    def __enter__(self):
+        global BUFFER_LIMIT
+        self.old, BUFFER_LIMIT = BUFFER_LIMIT, self.limit
+        return self
+
+    def __exit__(self, *a):
+        global BUFFER_LIMIT
+        BUFFER_LIMIT = self.old
+        return False
+
+
 class _FileProxy:
     """Write-mode file object.
 
@@ -119,6 +141,8 @@ class _FileProxy:
             raise PowerCut("power is off")
         if self._buffered:
             self._pending.append(data)
+            if BUFFER_LIMIT is not None and sum(len(x) for x in self._pending) > BUFFER_LIMIT:
+                self.flush()  # like a real file object whose buffer is full: the data hits the disk inside write()
             return len(data)
         return self._put(data)
 
